@@ -196,4 +196,3 @@ Definition KS_size_mul_overflow0 (a b : Z) : cres :=
     (cstore TULong (cmul TULong (cvar a) (cvar b)) (fun st =>
     (creturn (clit TInt 0) st)))).
 Definition KS_size_mul_overflow0_sig : list cty * cty := ([TULong; TULong], TULong).
-
